@@ -41,15 +41,23 @@ def impl_batch(P, pid, cases, workers):
 def evaluate(P, pid, tagged_cases, workers, acc):
     """Run model + implementation on the cases. Returns (violations, tie_breaks)."""
     cases = [c for _t, c in tagged_cases]
-    mos = []
+    expand = getattr(P, "driver_inputs", None)
+    flat, spans = [], []
+    for c in cases:
+        xs = expand(c) if expand else [c]
+        spans.append((len(flat), len(xs)))
+        flat.extend(xs)
+    fmos = []
     B = 20000
-    for i in range(0, len(cases), B):
-        mos.extend(common.run_driver(cases[i:i + B]))
+    for i in range(0, len(flat), B):
+        fmos.extend(common.run_driver(flat[i:i + B]))
+    for m in fmos:
+        if "error" in m:
+            raise common.Infra("driver rejected a case: %s" % m["error"])
+    mos = [fmos[a:a + n] if expand else fmos[a] for a, n in spans]
     ios = impl_batch(P, pid, cases, workers)
     violations, tie_breaks = [], []
     for (tag, case), mo, io in zip(tagged_cases, mos, ios):
-        if "error" in mo:
-            raise common.Infra("driver rejected a case: %s\n%s" % (mo["error"], json.dumps(case)[:600]))
         if "infra" in io:
             raise common.Infra(io["infra"])
         acc["evaluations"] += 1
@@ -79,9 +87,11 @@ def _new_acc():
 
 
 def still_fails(P, case):
-    mo = common.run_driver([case])[0]
-    if "error" in mo:
+    expand = getattr(P, "driver_inputs", None)
+    mos = common.run_driver(expand(case) if expand else [case])
+    if any("error" in m for m in mos):
         return None
+    mo = mos if expand else mos[0]
     io = P.run_impl(case)
     if "infra" in io:
         return None
@@ -236,7 +246,9 @@ def replay(P, pid, path):
         cases = [d["case"] for d in payload.get("correspondence", {}).get("diverging", [])]
         bad = 0
         for c in cases:
-            mo = common.run_driver([c])[0]
+            expand = getattr(P, "driver_inputs", None)
+            mos = common.run_driver(expand(c) if expand else [c])
+            mo = mos if expand else mos[0]
             io = P.run_impl(c)
             pi, pm = P.project(c, io), P.project(c, P.model_view(c, mo))
             print("impl :", json.dumps(pi))
